@@ -192,6 +192,58 @@ func counterRule(c *Ctx) {
 					}
 				}
 			}
+			// variant: the helper takes the already incremented counter *value*; then every caller
+			// must increment its counter unconditionally right before the call and pass *counter
+			if !okSeed && ok {
+				if f, _ := typeutil.Callee(d.pkg.TypesInfo, seed).(*types.Func); f != nil && f.FullName() == "fmt.Sprintf" && len(seed.Args) == 2 {
+					if fv, okf := constOf(d.pkg, seed.Args[0]); okf && fv.isStr() && strings.Contains(fv.str(), "d") && strings.Contains(fv.str(), "%") {
+						if id, isId := seed.Args[1].(*ast.Ident); isId {
+							po := objOf(d.pkg, id)
+							pidx, k := -1, 0
+							for _, fl := range d.fd.Type.Params.List {
+								for _, nm := range fl.Names {
+									if d.pkg.TypesInfo.Defs[nm] == po {
+										pidx = k
+									}
+									k++
+								}
+							}
+							calls := moduleCalls()[d.obj]
+							all := pidx >= 0 && len(calls) > 0
+							for _, mc := range calls {
+								if pidx >= len(mc.call.Args) {
+									all = false
+									continue
+								}
+								st, isStar := mc.call.Args[pidx].(*ast.StarExpr)
+								if !isStar {
+									all = false
+									continue
+								}
+								cobj := objOf(mc.d.pkg, st.X)
+								incd := false
+								for _, top := range mc.d.fd.Body.List {
+									if top.Pos() > mc.call.Pos() {
+										break
+									}
+									if ids, isInc := top.(*ast.IncDecStmt); isInc && ids.Tok == token.INC {
+										if pe, isP := ids.X.(*ast.ParenExpr); isP {
+											if se, isS := pe.X.(*ast.StarExpr); isS && objOf(mc.d.pkg, se.X) == cobj && cobj != nil {
+												incd = true
+											}
+										}
+									}
+								}
+								all = all && incd
+							}
+							if all {
+								c.ok(R, construct, c.P.Pos(cs.call.Pos()), "seed is the counter value every caller increments unconditionally before the call")
+								continue
+							}
+						}
+					}
+				}
+			}
 			if !okSeed {
 				c.bad(R, construct, c.P.Pos(cs.call.Pos()), "the seed is not fmt.Sprintf(<constant %d format>, *counter): generated identifiers are not a function of the component's position in the document")
 				continue
@@ -392,6 +444,22 @@ func idAlphabet(c *Ctx) {
 	pk := c.P.pkg("pkg/sbom")
 	var pat string
 	var pos token.Pos
+	// the pattern is whatever *regexp.Regexp package variable NewNodeIdentifier escapes with
+	// (receiver of its ReplaceAll* call) — found by use, not by name
+	reVar := ""
+	if d := c.decl(R, "sbom.NewNodeIdentifier"); d != nil {
+		for _, cs := range callsIn(d.pkg, d.fd.Body) {
+			if strings.HasPrefix(cs.callee.Name(), "ReplaceAll") && strings.HasSuffix(cs.callee.FullName(), cs.callee.Name()) && strings.Contains(cs.callee.FullName(), "regexp.Regexp") {
+				if sel, ok := cs.call.Fun.(*ast.SelectorExpr); ok {
+					if id, isId := sel.X.(*ast.Ident); isId {
+						if pv, isVar := d.pkg.TypesInfo.Uses[id].(*types.Var); isVar && pv.Pkg() != nil && pv.Parent() == pv.Pkg().Scope() {
+							reVar = id.Name
+						}
+					}
+				}
+			}
+		}
+	}
 	for _, f := range pk.Syntax {
 		ast.Inspect(f, func(n ast.Node) bool {
 			vs, ok := n.(*ast.ValueSpec)
@@ -399,7 +467,7 @@ func idAlphabet(c *Ctx) {
 				return true
 			}
 			for i, nm := range vs.Names {
-				if nm.Name == "invalidIDCharsRe" && i < len(vs.Values) {
+				if nm.Name == reVar && reVar != "" && i < len(vs.Values) {
 					if ce, ok := vs.Values[i].(*ast.CallExpr); ok && len(ce.Args) == 1 {
 						if v, ok := constOf(pk, ce.Args[0]); ok && v.isStr() {
 							pat = v.str()
@@ -459,7 +527,7 @@ func idAlphabet(c *Ctx) {
 		applied := false
 		for _, cs := range callsIn(d.pkg, d.fd.Body) {
 			if strings.HasPrefix(cs.callee.Name(), "ReplaceAll") {
-				if sel, ok := cs.call.Fun.(*ast.SelectorExpr); ok && types.ExprString(sel.X) == "invalidIDCharsRe" {
+				if sel, ok := cs.call.Fun.(*ast.SelectorExpr); ok && types.ExprString(sel.X) == reVar {
 					applied = true
 				}
 			}
